@@ -172,6 +172,21 @@ func EventType(event any) string {
 	return reflect.TypeOf(event).String()
 }
 
+var typeNamerType = reflect.TypeOf((*TypeNamer)(nil)).Elem()
+
+// typeNameOf returns the name EventType reports for events of type t, so that
+// APIs which select stored events by Go type agree with what was persisted.
+func typeNameOf(t reflect.Type) string {
+	if t.Kind() != reflect.Interface && t.Implements(typeNamerType) {
+		v := reflect.Zero(t)
+		if t.Kind() == reflect.Ptr {
+			v = reflect.New(t.Elem()) // never call the method on a nil pointer
+		}
+		return v.Interface().(TypeNamer).EventTypeName()
+	}
+	return t.String()
+}
+
 // Observability is an optional interface for metrics and tracing.
 // Implementations can track event publishing, handler execution, and errors.
 //
